@@ -74,6 +74,11 @@ func (g *c12Gen) construct(d int, e *c12Env) (string, string) {
 			// a macro WITHOUT parameters whose body sets both names: nothing may leak out either
 			return "{{ mz() }}", "[z]"
 		}
+		if verifChoice(2) == 0 {
+			// argument left out: the parameter is bound all the same (to nothing) and hides the
+			// context entry / global of the same name inside the macro
+			return "{{ m" + name + "() }}", "[]"
+		}
 		vn, v := g.val()
 		return "{{ m" + name + "(" + vn + ") }}", "[" + v + "]"
 	case 2: // with
